@@ -269,10 +269,10 @@ impl Check for C01 {
         ]
     }
     fn cases(&self, tier: Tier) -> u64 {
-        tier.pick(320, 6_000)
+        tier.pick(1_280, 12_000)
     }
     fn min_nontrivial(&self, tier: Tier) -> u64 {
-        tier.pick(100, 2_000)
+        tier.pick(300, 3_000)
     }
     fn shard_budget(&self, tier: Tier) -> std::time::Duration {
         tier.pick(std::time::Duration::from_secs(150), std::time::Duration::from_secs(1200))
